@@ -174,6 +174,21 @@ func (s copyStore) GetAccountsMetadata(context.Context, interpreter.MetadataQuer
 	return mkMeta(s.meta), nil
 }
 
+// caseStore: the semantic properties hold whatever conforming store serves the balances, so the corpora are run
+// against all of them in turn: the whole content, exactly what was asked, what was asked minus the zero balances,
+// and the repository's own StaticStore.
+func caseStore(id int, bal map[string]map[string]int64, meta map[string]map[string]string) interpreter.Store {
+	switch id % 4 {
+	case 1:
+		return &scriptStore{bal: bal, meta: meta, modes: []string{"exact"}}
+	case 2:
+		return &scriptStore{bal: bal, meta: meta, modes: []string{"sparse"}}
+	case 3:
+		return interpreter.StaticStore{Balances: mkBalances(bal), Meta: mkMeta(meta)}
+	}
+	return copyStore{bal: bal, meta: meta}
+}
+
 func mkBalances(b map[string]map[string]int64) interpreter.Balances {
 	out := interpreter.Balances{}
 	for a, m := range b {
@@ -338,7 +353,7 @@ func execCase(c *Case) execResult {
 		"flagovd": c.FlagOvd, "text": c.Text, "rawvars": c.RawVars, "meta": c.Meta, "varvals": c.VarVals}
 	rec := &recorder{}
 	ctx := context.WithValue(context.Background(), ctxKey{}, rec)
-	er.outcome = runParsed(ctx, p, copyVars(c.RawVars), copyStore{bal: c.Bal, meta: c.Meta}, c.FlagOvd)
+	er.outcome = runParsed(ctx, p, copyVars(c.RawVars), caseStore(c.ID, c.Bal, c.Meta), c.FlagOvd)
 	for _, e := range rec.events {
 		if e["e"] == "stmt" {
 			er.events = append(er.events, e)
